@@ -92,7 +92,18 @@ def h_hostile_fd(ex, kinds, srcs, gaps, phase='fresh', length=None, mpglen=4):
     st = Stack(w, 'S', S, dll='j1939-22', max_cmdt_packets=2)
     n = st.node
     w.run(until=T('1/100'))
-    if phase != 'fresh':
+    if phase.startswith('in_'):
+        # an inbound session from P (session number 3) is open when the traffic starts
+        inL, inseg = 250, 5
+        if phase == 'in_bam':
+            w.inject(n, tp21.can_id(7, tp22.PF_CM, 255, P), tp22.cm_frame(tp22.BAM, 3, inL, inseg, 0, 0, 0xFE10), fd=True)
+        else:
+            w.inject(n, tp21.can_id(7, tp22.PF_CM, S, P), tp22.cm_frame(tp22.RTS, 3, inL, inseg, 255, 0, MSG_PF << 8), fd=True)
+        w.run(until=w.now + T('1/100'))
+        if phase in ('in_mid', 'in_bam'):
+            w.inject(n, tp21.can_id(7, tp22.PF_DT, 255 if phase == 'in_bam' else S, P), tp22.dt_frame(3, 1, [(j * 5) % 256 for j in range(inL)]), fd=True)
+            w.run(until=w.now + T('1/100'))
+    elif phase != 'fresh':
         st.ca.send_pgn(0, MSG_PF, P, 6, [(j * 3) % 256 for j in range(250)])   # 5 segments
         w.run(until=w.now + T('1/100'))
         if phase in ('window', 'all_sent'):
@@ -166,6 +177,10 @@ def jobs(tier):
         J(kinds=['dt'], srcs=[P], gaps=['0'], phase=ph, length=64)
         for ml in ((8, 200) if q else (0, 1, 4, 8, 9, 60, 200, 255)):
             J(kinds=['mpg'], srcs=[P], gaps=['0'], phase=ph, length=16, mpglen=ml)
+    for ph in ('in_rts', 'in_mid', 'in_bam'):
+        for kd in ('cm', 'dt'):
+            for src in ((P,) if q else (P, S, 254)):
+                J(kinds=[kd], srcs=[src], gaps=['0'], phase=ph)
     if not q:
         # two FD frames: every second-frame field is symbolic again (16 session numbers x 6 control types x field
         # comparisons); explored under a budget and reported as non-exhaustive where the budget is hit
